@@ -181,6 +181,13 @@ TWIN_DOCS = [
 TWIN_QUERIES = ["$[?@.a == 1]", "$[?@ == true]", "$[?@ == 1]", "$[?@ == 0]", "$[?@]", "$[?@ == $[0]]", "$..[?@ == 1]",
                 "$..[?@ == 0 || @ == 'a']", "$[?@ != 2]", "$[*][?@]", "$..[?@][?@]", "$[?@ == @]", "$..[?length(@) == 1]",
                 "$[?@ == 'a', ?@ == 'a']", "$..*", "$[?@[0] == 0]", "$..[?@[0] == 1][0]", "$[?@ == ''][0]"]
+import collections as _collections
+
+# objects that are OrderedDicts (json.load(object_pairs_hook=OrderedDict)) at every level
+DEEP_DOCS.append(_collections.OrderedDict([
+    ("store", _collections.OrderedDict([("book", [_collections.OrderedDict([("price", 1)]), _collections.OrderedDict([("price", 2)])]),
+                                        ("k", _collections.OrderedDict())])),
+    ("0", [1, _collections.OrderedDict([("a b", [3])])])]))
 DEEP_QUERIES = ["$..*", "$..[*]", "$[*][*]", "$..[?@]", "$[?@]", "$..[-1]", "$..[::-1]", "$..[0,0]", "$[*]..*", "$"]
 
 
